@@ -314,8 +314,9 @@ func (jf *JSONFamily) plainOK(e *FuncEnc, a, v string, t types.Type, s *RefSchem
 		act := sx("jv_unenc", sx("j_val", a))
 		_, unbox := e.D.Box(t)
 		p := sx(unbox, sx("if_val", act))
-		tag := itoa(int64(e.D.TypeTag(t)))
-		return and(some, eq(sx("j_val", a), sx("jv_enc", act)), eq(sx("if_tag", act), tag),
+		// the value handed over is the interface of a slice P: the field's own
+		// slice when that is non-nil, an empty non-nil one otherwise
+		return and(some, eq(sx("j_val", a), sx("jv_enc", e.ifaceOf(t, p))),
 			ite(eq(sx("sl_base", v), "0"), and(eq(sx("sl_len", p), "0"), not(eq(sx("sl_base", p), "0"))), eq(p, v))), ""
 	case *types.Struct:
 		if isNamed(t, "time", "Time") {
